@@ -1647,7 +1647,55 @@ func genMedia(r *rand.Rand, pAbsent int) []string {
 	if r.Intn(2) == 0 {
 		pool = mediaTypes[:4]
 	}
-	return pickSome(r, pool, 1+r.Intn(3))
+	l := pickSome(r, pool, 1+r.Intn(3))
+	// now and then the list also names an EXTENSION of one of its types (or of application/json, which an API registers by
+	// default): a media type that has the other one as a textual prefix (application/json-patch+json, text/plain-v2, ...).
+	// They are two media types: each needs its own consumer / producer.
+	if r.Intn(8) == 0 {
+		l = withExtension(r, l)
+		if r.Intn(4) == 0 {
+			l = withExtension(r, l) // a second one: possibly an extension of the extension, or a sibling
+		}
+	}
+	return l
+}
+
+// extSuffixes turn a media type into another, longer media type that has the first as a textual prefix (token characters only).
+var extSuffixes = []string{"-patch+json", "-v2", "-extra", "+zip", ".v1", "2", "-seq", "x"}
+
+func withExtension(r *rand.Rand, l []string) []string {
+	base := l[r.Intn(len(l))]
+	if r.Intn(3) == 0 {
+		base = "application/json"
+		if r.Intn(2) == 0 && !setOf(l)[base] {
+			l = append(l, base) // both of the pair in one list (else the shorter one may be named at another level, or not at all)
+		}
+	}
+	ext := base + extSuffixes[r.Intn(len(extSuffixes))]
+	if !setOf(l)[ext] {
+		l = append(l, ext)
+	}
+	return l
+}
+
+// extensionPair: some category (consumes / produces) of the description requires two media types of which one is a
+// strict textual prefix of the other (compared in lower case).
+func extensionPair(d *Desc) bool {
+	req := required(d, false)
+	for _, c := range []int{catConsumes, catProduces} {
+		names := map[string]bool{}
+		for n := range req[c] {
+			names[strings.ToLower(n)] = true
+		}
+		for a := range names {
+			for b := range names {
+				if len(a) < len(b) && strings.HasPrefix(b, a) {
+					return true
+				}
+			}
+		}
+	}
+	return false
 }
 
 // genConsumes: as genMedia, and now and then the form media types (requests only: consumes lists)
@@ -1901,6 +1949,13 @@ func freshConsumerMedia(r *rand.Rand, named strset) string {
 var consumerTypes = append(append([]string{}, mediaTypes...), formTypes...)
 
 func freshFrom(r *rand.Rand, named strset, pool []string) string {
+	// now and then the added type is an extension of a type the description names (never required itself)
+	if len(named) > 0 && r.Intn(4) == 0 {
+		l := named.sorted()
+		if ext := strings.ToLower(l[r.Intn(len(l))]) + extSuffixes[r.Intn(len(extSuffixes))]; !named[ext] && !strings.Contains(ext, ";") && !strings.Contains(ext, "*") {
+			return ext
+		}
+	}
 	for _, i := range r.Perm(len(pool)) {
 		if !named[pool[i]] {
 			return pool[i]
@@ -2333,6 +2388,9 @@ func descFeature(d *Desc) string {
 	spelt, types := spellings(d)
 	if spelt[catConsumes] > types[catConsumes] || spelt[catProduces] > types[catProduces] {
 		return "/description-spells-a-type-two-ways"
+	}
+	if extensionPair(d) {
+		return "/description-names-a-type-and-an-extension-of-it"
 	}
 	return ""
 }
